@@ -14,7 +14,7 @@ import (
 // Both go through Mapper.Read/Write only; no machine cycle elapses between a write and the reads.
 
 // machine states the sweeps start from
-var busStates = []string{"power-on", "lcd-off", "lcd-off+apu-off", "after-busy-rom", "mbc1-ram-enabled", "ch3-playing", "dma-in-flight", "dacs-on-idle", "dac3-on-fresh"}
+var busStates = []string{"power-on", "lcd-off", "lcd-off+apu-off", "after-busy-rom", "mbc1-ram-enabled", "ch3-playing", "dma-in-flight", "dacs-on-idle", "dac3-on-fresh", "lcd-off+all-requested"}
 
 func busMachine(state string, repo string) (*machine.M, ref.CartKind) {
 	kind := ref.KNone
@@ -59,6 +59,9 @@ func busMachine(state string, repo string) (*machine.M, ref.CartKind) {
 		for i := 0; i < 40; i++ {
 			m.Hardware()
 		}
+	case "lcd-off+all-requested":
+		m.Map.Write(0xff0f, 0x1f) // every interrupt requested, none enabled, timer stopped
+		m.Map.Write(0xffff, 0x00)
 	case "dac3-on-fresh":
 		m.Map.Write(0xff26, 0x80)
 		m.Map.Write(0xff1a, 0x80) // channel 3's DAC on, never triggered
@@ -440,10 +443,10 @@ func c07Region(w uint16) string {
 func init() {
 	register("C06", "model_checking", func(c *Ctx) {
 		if c.R != nil {
-			c.R.Rule = "through Mapper.Read/Write only, from 9 machine states: (plain) three complete write sweeps (ascending, descending, strided; distinct patterns) over WRAM+echo, HRAM, IE and, LCD off, VRAM and OAM, each followed by a complete read-back of all plain memory, plus all 256 values at region-boundary addresses with both mirror directions; (io) every address FF00-FF7F x all 256 values: read-back = (v & writable) | always-one | read-only bits; DIV/LY never take the value; unmapped read FF; (unusable) FEA0-FEFF read 00; a case = one (state, part)"
+			c.R.Rule = "through Mapper.Read/Write only, from 10 machine states: (plain) three complete write sweeps (ascending, descending, strided; distinct patterns) over WRAM+echo, HRAM, IE and, LCD off, VRAM and OAM, each followed by a complete read-back of all plain memory, plus all 256 values at region-boundary addresses with both mirror directions; (io) every address FF00-FF7F x all 256 values: read-back = (v & writable) | always-one | read-only bits; DIV/LY never take the value; unmapped read FF; (unusable) FEA0-FEFF read 00; a case = one (state, part)"
 			c.R.Assumptions = []string{"NR52 and JOYP's input nibble are owned by C18/C19/C22", "TIMA/TMA read-back is judged with the timer stopped", "LY with the LCD on is observed one machine cycle after the write (what a guest can see)"}
 		}
-		explore.Product(c.R, "read-back", explore.PartOpt{Bound: "no time elapses between write and read", Domain: "9 machine states x {plain, io, unusable}"},
+		explore.Product(c.R, "read-back", explore.PartOpt{Bound: "no time elapses between write and read", Domain: "10 machine states x {plain, io, unusable}"},
 			func(yield func(c06Case) bool) {
 				for _, s := range busStates {
 					for _, p := range []string{"plain", "io", "unusable"} {
@@ -460,7 +463,7 @@ func init() {
 			c.R.Assumptions = []string{"quick: every address FE00-FFFF, every 0x100-aligned address +-1 elsewhere and every region boundary +-1; thorough: all 65,536 addresses"}
 		}
 		vals := []uint8{0x00, 0xff, 0x55, 0xaa, 0x01, 0x80, 0x0a, 0xe5}
-		explore.Product(c.R, "write-effect-sets", explore.PartOpt{Bound: "single write, full-space diff", Domain: "9 machine states (FF10-FF3F: every write from the state itself); plus FF10-FF3F x 8 values each written from a busy APU (all channels playing, length counters at 1, second half of a frame-sequencer period)"},
+		explore.Product(c.R, "write-effect-sets", explore.PartOpt{Bound: "single write, full-space diff", Domain: "10 machine states (FF10-FF3F: every write from the state itself); plus FF10-FF3F x 8 values each written from a busy APU (all channels playing, length counters at 1, second half of a frame-sequencer period)"},
 			func(yield func(c07Case) bool) {
 				// sound registers from a busy APU, every write from the state itself
 				for lo := 0xff10; lo < 0xff40; lo += 4 {
@@ -473,7 +476,7 @@ func init() {
 					for lo := 0xfe00; lo < 0x10000; lo += 0x10 {
 						// the sound registers and wave RAM: every write from the state itself (a sweep over NR52 or NR30
 						// would otherwise destroy the state for the addresses after it)
-						fresh := lo >= 0xff10 && lo < 0xff40 && s != "after-busy-rom"
+						fresh := (lo >= 0xff10 && lo < 0xff40 && s != "after-busy-rom") || (s == "lcd-off+all-requested" && lo >= 0xff00 && lo < 0xff80)
 						if !yield(c07Case{State: s, Lo: lo, Hi: lo + 0x0f, Vals: vals, Fresh: fresh}) {
 							return
 						}
